@@ -1,6 +1,6 @@
 SPEC = {
     "id": "C03",
-    "n": {"quick": 900, "thorough": 20000},
+    "n": {"quick": 900, "thorough": 100000},
     "search": {"n": 40000},
     "components": {"1": "diff.Diff delta", "2": "merge.Merge result", "3": "client/src/merge.ts result"},
     "corr_name": "DiffMerge.Model (diff, merge, merge_js) vs diff.Diff / merge.Merge / merge.ts",
